@@ -9,7 +9,7 @@ CLAIM = dict(
     note="Trusted: as C02. The state machine treats resolve() as atomic (interruption inside it is C18/C19's subject) and models the static view of ranks; per-position TypeMap caches are not modelled separately (their content is a function of the registered types, which do not change in C04's histories).",
     technique="Coq proof (cache invariant by induction over the access sequence) + differential correspondence on histories", design="6 C04")
 
-THEOREMS = ["C04_history_free", "C04_access_step", "C04_history_free_partial", "C04_invariant_reachable"]
+THEOREMS = ["C04_history_free", "C04_access_step", "C04_leaf_missing", "C04_getitem_follows_chain", "C04_history_free_partial", "C04_invariant_reachable"]
 ASSUMPTIONS = ["resolve() runs to completion (no interrupt between its writes)"]
 
 
